@@ -61,6 +61,9 @@ package websocket
 //@   ensures [first-byte] (*f)[0] == old((*f)[0]) && ((*f)[1] & 128 != 0) == masked
 //@   // writes stay inside the frame's old backing array (or go to a newly allocated one)
 //@   ensures [frame-only] unchanged_except(old((*f)[0:cap(*f)]))
+//@   // the frame keeps its backing array or moves to a newly allocated one
+//@   ensures [storage] (ptr(*f) == old(ptr(*f)) && cap(*f) == old(cap(*f))) || fresh((*f)[0:cap(*f)])
+//@   modifies *f, memcap(*f)
 //@   ensures [short] len(b) <= 125 ==> int((*f)[1] & 127) == len(b)
 //@   ensures [medium] 125 < len(b) && len(b) <= 65535 ==> (*f)[1] & 127 == 126 && int((*f)[2])<<8 + int((*f)[3]) == len(b)
 //@   ensures [long] len(b) > 65535 ==> (*f)[1] & 127 == 127 &&
